@@ -33,6 +33,10 @@ def run(repo, run, tier):
     from .common import index_decrement
     index_decrement(repo, run, "C19.9", DS, ["DenseOutput.find_interval", "DenseOutput.find_interval_vec"])
     length(repo, run)
+    # 'looking the trajectory up at a time returns the dense solution there': the store the lookup bisects stays sorted for every method (Richardson sub-steps included)
+    from .c06 import piece_store_single_writer
+    piece_store_single_writer(repo, run, rule_id="C19.10")
+
 
 
 def _branch(fn, pred):
